@@ -46,6 +46,9 @@ class FakeConnection:
             self.ci += 1
             if 1 <= c < k:
                 k = c
+        if not isinstance(k, int) or type(k) is not int:
+            from harness.common import realize_int
+            k = realize_int(k, 1, rem if type(rem) is int else 64)      # concrete read sizes keep later slice bounds concrete
         out = self.data[self.pos:self.pos + k]
         self.pos += k
         return out
